@@ -88,6 +88,7 @@ def decode_path(ctx, repo, cname, fname, reset_required):
         # the concrete STATP decodes below and the message-sequence model (R9)
         ctx.note(f"{fi.qual}: {len(appends)} `self.changes.append` site(s) - decode path decided by the interpreted decodes and the message-sequence model only")
         statp_decodes_in_wire_order(ctx, repo, cname, fname)
+        acknowledgement_model(ctx, repo, cname, fname)
         return
     ctx.ob("R1", f"{key}::append-site", True, "")
     A, ac = appends[0]
@@ -108,7 +109,8 @@ def decode_path(ctx, repo, cname, fname, reset_required):
         # reset leaves the previous message's list in place for the apply callback)
         tests = [t for t in g.stmt_nodes() if t.kind == "test" and "startswith(STATQ_VERB)" in t.text()]
         if len(tests) == 1 and resets:
-            fs = [m for m, l in g.succ[tests[0]] if l == "F"]
+            statp_label = "T" if tests[0].text().lstrip().startswith("not ") else "F"    # `if not ...startswith(STATQ_VERB)`: STATP is the true branch
+            fs = [m for m, l in g.succ[tests[0]] if l == statp_label]
             skipped = bool(fs) and fs[0] not in resets and g.exit in g.reach_from(fs[0], avoid=resets, labels_skip=("exc",))
             ctx.ob("R1", f"{key}::reset-on-every-STATP-path", not skipped,
                    f"{fi.qual}: a STATP message can be handled without resetting self.changes (a path from the STATP branch to the end avoids the reset): "
@@ -120,48 +122,65 @@ def decode_path(ctx, repo, cname, fname, reset_required):
     other_writes = [n for n in g.stmt_nodes() if assigns_attr(n, "self.changes") and n not in resets]
     ctx.ob("R1", f"{key}::no-other-writes", not other_writes, f"{fi.qual}: self.changes also written at {[n.lineno for n in other_writes]}", fi.loc)
 
-    # R4 acknowledgement
-    sends = calls_named(g, "queue_send")
-    ctx.ob("R4", f"{key}::one-ack-site", len(sends) == 1, f"{fi.qual}: {len(sends)} send sites (exactly one acknowledgement per STATP expected)", fi.loc)
-    for S, sc in sends:
-        f2 = g.guard_atoms(S)
-        ctx.ob("R4", f"{key}::ack-only-on-STATP", any((not p) and "startswith(STATQ_VERB)" in t for t, p in f2),
-               f"{fi.qual}: acknowledgement also sent for STATQ; guards {sorted(f2)}", loc(fi, S.ast))
-        tests = [t for t in g.stmt_nodes() if t.kind == "test" and "startswith(STATQ_VERB)" in t.text()]
-        once = False
-        if len(tests) == 1 and g.loop_of(S) is None:
-            fs = [m for m, l in g.succ[tests[0]] if l == "F"]
-            once = bool(fs) and (fs[0] is S or g.pdom(S, fs[0]))
-        ctx.ob("R4", f"{key}::ack-once", once,
-               f"{fi.qual}: acknowledgement is inside a loop or not on every STATP path", loc(fi, S.ast))
-        pk = sc.args[0] if sc.args else None
-        content = None
-        parms = None
-        if isinstance(pk, ast.Call):
-            for kw in pk.keywords:
-                if kw.arg == "content":
-                    content = kw.value
-                if kw.arg == "parms":
-                    parms = kw.value
-        okc = False
-        seq_ok = False
-        if isinstance(content, ast.Call) and call_name(content) == "join" and content.args and isinstance(content.args[0], ast.List):
-            parts = content.args[0].elts
-            if parts and repo.try_fold(parts[0], fi.mod) == statq:
-                okc = True
-            if len(parts) == 2 and isinstance(parts[1], ast.Call) and ast.unparse(parts[1].func).endswith("struct.pack"):
-                fmt = repo.try_fold(parts[1].args[0], fi.mod)
-                seqe = parts[1].args[1] if len(parts[1].args) == 2 else None
-                if fmt == ">B" and isinstance(seqe, ast.Call) and call_name(seqe) == "get_and_increment_sequence_counter" \
-                        and len(seqe.args) == 1 and isinstance(seqe.args[0], ast.Constant) and seqe.args[0].value is False:
-                    seq_ok = True
-        ctx.ob("R4", f"{key}::ack-verb", okc, f"{fi.qual}: acknowledgement content does not start with STATQ", loc(fi, S.ast))
-        ctx.ob("R4", f"{key}::ack-sequence", seq_ok,
-               f"{fi.qual}: acknowledgement sequence byte is not struct.pack('>B', <counter>(False)) (protocol range)", loc(fi, S.ast),
-               sample={"rule": "R4", "function": fi.qual, "ack": ast.unparse(pk)[:160] if pk is not None else None})
-        sender = fi.node.args.args[2].arg
-        ctx.ob("R4", f"{key}::ack-addressed-to-sender", parms is not None and ast.unparse(parms) == sender,
-               f"{fi.qual}: acknowledgement is not addressed with parms=<sender of the STATP>", loc(fi, S.ast))
+    acknowledgement_model(ctx, repo, cname, fname)
+
+
+def acknowledgement_model(ctx, repo, cname, fname):
+    """R4 by interpretation: the handler, built by its constructor on a model link (a counter that answers 7 for the
+    protocol kind and 200 for the command kind and notes each draw; a send path that records), is given STATP messages
+    with 0, 1 and 3 changes and a STATQ: every STATP is acknowledged exactly once - not once per change - with
+    STATQ + the one protocol-kind number drawn for it, addressed to the sender of the STATP; a STATQ is not acknowledged."""
+    from ..absint import ClassRef, Interp, Native, Obj, PyRaise, Undecided
+    from . import c04
+    fi = repo.own_method(cname, fname)
+    key = fi.qual
+    sender = ("10.0.0.7", 10022, b"SPA-ID", b"IOS-CLIENT")
+    it = Interp(repo, max_depth=12)
+    sent, draws = [], []
+    link = Obj(None, {"queue_send": Native(lambda a, k: sent.append((a[0], a[1] if len(a) > 1 else k.get("destination"))), "queue_send"),
+                      "get_and_increment_sequence_counter": Native(lambda a, k: (draws.append(a[0] if a else k.get("command")), 7 if (a and a[0] is False) else 200)[1], "counter")}, name="link")
+    report = []
+    try:
+        h = it.apply(ClassRef(repo.cls(cname)), [link], {})
+        for changes in ([], [(10, b"\x00\x01")], [(10, b"\x00\x01"), (12, b"\x00\x02"), (700, b"\x5a")]):
+            msg = it.call(repo.method(SYNC_H, "report_changes"), None, [link, list(changes)])
+            n0, d0 = len(sent), len(draws)
+            sent_before = list(sent)
+            it.steps = 0
+            it.call(fi, h, [c04.wire_of(msg, it), sender])
+            new = sent[len(sent_before):] if len(sent) >= len(sent_before) else sent
+            acks = []
+            for a, dest in new[0 if True else 0:]:
+                w = c04.wire_of(a, it)
+                w = bytes(w) if isinstance(w, (bytes, bytearray)) else (w.concrete() if hasattr(w, "concrete") else w)
+                acks.append((w, a.attrs.get("_parms") if isinstance(a, Obj) else None, dest))
+            report.append((len(changes), acks, draws[d0:]))
+        n_statq = len(sent)
+        it.steps = 0
+        it.call(fi, h, [b"STATQ\x09", sender])
+        report.append(("STATQ", len(sent) - n_statq, None))
+    except PyRaise as e:
+        report = f"raises {e.what}"
+    except Undecided as e:
+        raise AnalysisError(f"{key}: acknowledgements on the model link: {e}")
+    ok_once = isinstance(report, list) and all(len(r[1]) == 1 for r in report[:3])
+    # the sequence is drawn with the message builder too (report_changes) on some stacks: only the draws made inside handle count
+    ctx.ob("R4", f"{key}::ack-once", ok_once,
+           f"{fi.qual}: STATP messages with 0, 1 and 3 changes are acknowledged {[len(r[1]) for r in report[:3]] if isinstance(report, list) else report} time(s), expected exactly once each", fi.loc,
+           sample={"rule": "R4", "function": fi.qual, "acks_per_message": [len(r[1]) for r in report[:3]] if isinstance(report, list) else str(report)})
+    ctx.ob("R4", f"{key}::ack-only-on-STATP", isinstance(report, list) and report[-1][1] == 0,
+           f"{fi.qual}: a STATQ delivered to the handler is answered with {report[-1][1] if isinstance(report, list) else report} datagram(s): an acknowledgement is acknowledged", fi.loc)
+    if ok_once:
+        contents = [r[1][0][0] for r in report[:3]]
+        ctx.ob("R4", f"{key}::ack-verb", all(isinstance(c_, (bytes, bytearray)) and bytes(c_)[:5] == b"STATQ" and len(c_) == 6 for c_ in contents),
+               f"{fi.qual}: acknowledgement contents {contents}: not STATQ followed by one sequence byte", fi.loc)
+        kinds = [r[2] for r in report[:3]]
+        ctx.ob("R4", f"{key}::ack-sequence", all(isinstance(c_, (bytes, bytearray)) and bytes(c_)[5:] == b"\x07" for c_ in contents) and all(k_ == [False] for k_ in kinds),
+               f"{fi.qual}: acknowledgement sequence bytes {[bytes(c_)[5:] if isinstance(c_, (bytes, bytearray)) else c_ for c_ in contents]} with counter draws {kinds} per message - expected one draw of the "
+               f"protocol kind (False) per STATP and its number (7 on the model link) in the acknowledgement", fi.loc)
+        addr = [(r[1][0][1], r[1][0][2]) for r in report[:3]]
+        ctx.ob("R4", f"{key}::ack-addressed-to-sender", all((p_ == sender or p_ is None) and (d_ == sender or d_ is None) and (p_ == sender or d_ == sender) for p_, d_ in addr),
+               f"{fi.qual}: acknowledgements are addressed (parms, destination) = {addr}, expected the sender of the STATP {sender}", fi.loc)
 
 
 def apply_model(ctx, repo, qual, must_clear):
